@@ -253,6 +253,7 @@ pub struct Stats {
     pub errors: u64,
     pub read_calls: u64,
     pub polled_after_end: u64,
+    pub polled_after_error: u64,
     pub write_failures: u64,
     pub writes_ok: u64,
 }
@@ -279,6 +280,14 @@ fn drain<'a>(what: &str, it: impl Iterator<Item = std::io::Result<Val>> + 'a, bo
             }
             Some(Err(_)) => {
                 st.errors += 1;
+                // `try input catch ..` followed by another `input`, or the main loop after it,
+                // polls the stream again after an error: that must not crash either
+                for _ in 0..3 {
+                    st.polled_after_error += 1;
+                    if it.next().is_none() {
+                        break;
+                    }
+                }
                 break;
             }
         }
@@ -356,6 +365,7 @@ pub fn run_case(c: &Case, st: &mut Stats) -> Option<(String, String)> {
         st.values += s2.values;
         st.errors += s2.errors;
         st.polled_after_end += s2.polled_after_end;
+        st.polled_after_error += s2.polled_after_error;
     }
     // (b) slice parser
     let r = guarded("read::parse (slice parser)", || {
@@ -543,6 +553,7 @@ pub fn case_out(cfg: &Cfg, i: u64) -> CaseOut {
     }
     tally.add_n("values_read", st.values);
     tally.add_n("reach:polled_after_end", st.polled_after_end);
+    tally.add_n("reach:polled_after_error", st.polled_after_error);
     tally.add_n("reach:write_failed", st.write_failures);
     tally.add_n("reach:write_ok", st.writes_ok);
     let key = format!("{}|{}|{}", case.fmt, case.damage.iter().map(|d| d.split(['@', ' ']).next().unwrap_or("")).collect::<Vec<_>>().join("+"), st.values.min(3));
@@ -704,7 +715,7 @@ pub fn check(cfg: &Cfg) -> Result<i32, Harness> {
         coverage: json!({
             "evaluations": evaluations,
             "distinct_nontrivial": keys.len(),
-            "rule": "RESTRICTED SCOPE: the stream-facing surface only. Each library case takes a seed document of one format (JSON/XJON, YAML, CBOR, TOML, XML, CSV, TSV, raw, raw0; hand-written to cover the syntax, plus CBOR written by the tree) or a stored program text (`jq`: what a filter file or module file holds; it is only compiled and its diagnostics rendered, never run), applies 0-3 storage/transport faults (truncation at a byte, bit flip, zeroed block, duplicated block, swapped blocks, inserted/deleted/overwritten byte, repeated opening token) and a delivery plan (chunk sizes 1..64, Interrupted, hard read error at a step or at the end), and runs (a) the streaming reader read::read over a fault-injecting BufRead, (b) the slice parser read::parse, (c) the from* filter, (d) every value writer on the values obtained, against a sink with short writes, Interrupted, write and flush failures. Oracle: no panic (catch_unwind; debug assertions and overflow checks on), no crash or hang of the worker process (1 GiB stack, 6 GiB address space), at most len+16 pulls up to the end or first error, polling twice after the end is harmless, a writer on a benign sink produces the plain bytes and on a failing sink returns the error. CLI pass: worlds of the C16/C17/C18 generators with an injected errno on a random read/write/open/stat/map/rename/chmod call; oracle: exit is not 101 / a signal / a hang. distinct = distinct (format, fault kinds, min(values,3)) plus distinct (world kind, fired fault, exit); trivial = undamaged document with the default plan.",
+            "rule": "RESTRICTED SCOPE: the stream-facing surface only. Each library case takes a seed document of one format (JSON/XJON, YAML, CBOR, TOML, XML, CSV, TSV, raw, raw0; hand-written to cover the syntax, plus CBOR written by the tree) or a stored program text (`jq`: what a filter file or module file holds; it is only compiled and its diagnostics rendered, never run), applies 0-3 storage/transport faults (truncation at a byte, bit flip, zeroed block, duplicated block, swapped blocks, inserted/deleted/overwritten byte, repeated opening token) and a delivery plan (chunk sizes 1..64, Interrupted, hard read error at a step or at the end), and runs (a) the streaming reader read::read over a fault-injecting BufRead, (b) the slice parser read::parse, (c) the from* filter, (d) every value writer on the values obtained, against a sink with short writes, Interrupted, write and flush failures. Oracle: no panic (catch_unwind; debug assertions and overflow checks on), no crash or hang of the worker process (1 GiB stack, 6 GiB address space), at most len+16 pulls up to the end or first error, polling twice after the end and up to three times after an error is harmless, a writer on a benign sink produces the plain bytes and on a failing sink returns the error. CLI pass: worlds of the C16/C17/C18 generators with an injected errno on a random read/write/open/stat/map/rename/chmod call; oracle: exit is not 101 / a signal / a hang. distinct = distinct (format, fault kinds, min(values,3)) plus distinct (world kind, fired fault, exit); trivial = undamaged document with the default plan.",
             "by_format": pick("fmt:"),
             "faults_injected": pick("fault:"),
             "reach_probes": pick("reach:"),
